@@ -430,7 +430,15 @@ def effectInit (sig : Sig) (N : AttrNames) (f : AAFamily) (k emptyStr : Nat) (kw
         | .ok (c, a) => .ok (c, a, .none, var0)
         | .error e => .error e
       else if valid cls0 || valid qty0 then .ok (cls0, qty0, .none, var0)
-      else .ok (cls0, qty0, q0, var0)
+      else
+        -- "handled by the quantity property": `self.quantity = quantity` runs last and, unless the value is
+        -- `None` or `[]`, splits it into class and amount
+        match q0 with
+        | .none => .ok (cls0, qty0, q0, var0)
+        | .list [] => .ok (cls0, qty0, q0, var0)
+        | _ => match splitVal k q0 with
+          | .ok (c, a) => .ok (c, a, q0, var0)
+          | .error e => .error e
     | .none => .ok (.none, .none, q0, var0)
   match aa with
   | .error e => .error e
@@ -681,6 +689,7 @@ def helperOK (sig : Sig) (ms : List EnumMember) (hs : List Helper) (h : Helper) 
   nodupNat (h.forwards.map (·.1)) &&
   Nat.beq h.forwards.length h.params.length &&
   subset h.params (h.forwards.map (·.2)) &&
+  subset (h.forwards.map (·.2)) h.params &&           -- a forwarded name that is no parameter is a NameError
   nodupNat h.params &&
   subset (h.forwards.map (·.1)) sig.addParams &&
   !memN sig.typeKey (h.forwards.map (·.1)) &&
